@@ -1294,6 +1294,9 @@ class Explorer:
             if stop is not None and not first and stop(node):
                 outcomes.append(Outcome("stop", node, env, events, path))
                 continue
+            if self.call_trace and node.kind in ("test", "for") and node.ast is not None:
+                # (calls made by a branch condition or a loop header are calls too: `if not futures.wait(..).not_done`)
+                env = self._trace_calls(node, env)
             if node.kind == "test":
                 try:
                     v = self.ev(node.ast, env)
